@@ -37,4 +37,15 @@ let handle (toks : Stdlib.String.t list) : Stdlib.String.t =
         | CSError -> (-1, "error")
         | CSFuel -> (-1, "fuel")) in
       Printf.sprintf "pos=%d action=%s probes=%s" pos act ps
+  (* handshake_flag <prev caught_up 0|1> <n leader appends> : the caught-up flag of the model after
+     [EDrop; EAppend x n; EBegin; EAppend x n] from a follower whose flag was <prev> (toy semantics, real csz) *)
+  | ["handshake_flag"; prev; n] ->
+      let p = (prev = "1") in
+      let f = { f_file = []; f_mem = []; f_aofsz = Z0; f_cup = p; f_once = p; f_ses = None; f_broken = false } in
+      let r = [Npos XH; Npos XH; Npos XH; Npos XH] in
+      let rec apps k acc = if k <= 0 then acc else apps (k - 1) (EAppend r :: acc) in
+      let k = int_of_string n in
+      let es = EDrop :: apps k (EBegin :: apps k []) in
+      let (_, f') = run (fun b -> b) bytes_eqb (Conv.z_of_int 524288) [] toy_app Repaired ([], f) es in
+      Conv.bool_str f'.f_cup
   | _ -> "?unknown"
